@@ -44,6 +44,12 @@ def gen(tier, rng):
         for mode in "sa":
             f[1] = mode
             cases.append("\t".join(f))
+    # authentication dialogues (accepted, refused at every step, endless challenges) through both clients
+    for c in smtpgen.auth_cases(rng, {"quick": 150, "search": 400, "thorough": 1500}[tier]):
+        f = c.split("\t")
+        for mode in "sa":
+            f[1] = mode
+            cases.append("\t".join(f))
     # the pooled transports, sync and tokio, against peers that drop or refuse: each is compared with the pool model
     # (a parked connection that the peer closed is replaced, the message still reaches the wire)
     from tools.props import c08
